@@ -517,6 +517,17 @@ def function_chains(model, f: FuncInfo):
     """Replace chains of a one-argument string function, per operand kind:
     {'str': Chain, 'bytes': Chain}.  Handles `if isinstance(x, str): return
     chain elif isinstance(x, bytes): return chain` and a single return."""
+    # first by interpretation on a symbolic text (independent of how the
+    # function is written); the syntactic reading below is the fallback for
+    # single-pass regex rewrites, which the symbolic text does not model
+    from .absint import Unsupported
+    from . import symtext
+    try:
+        got = symtext.chains_by_interpretation(model, f)
+        if all(c.stages for c in got.values()):
+            return got
+    except Unsupported:
+        pass
     param = f.params[0]
     out = {}
     env = SymEnv(f.node)
